@@ -225,12 +225,16 @@ class MetadorMeta:
         self._node: MetadorNode = node
         """Underlying actual user node."""
 
-        is_dataset = isinstance(node, H5DatasetLike)
-        self._base_dir: str = M.to_meta_base_path(node.name, is_dataset)
+    @property
+    def _base_dir(self) -> str:
         """Path of this metador metadata group node.
 
         Actual node exists iff any metadata is stored for the node.
+
+        Follows the node (its path can change while this object is kept).
         """
+        is_dataset = isinstance(self._node, H5DatasetLike)
+        return M.to_meta_base_path(self._node.name, is_dataset)
 
     @property
     def _objs(self) -> Dict[str, StoredMetadata]:
